@@ -149,7 +149,7 @@ Qed.
 (* ... and parsing what pack writes for it returns that normal form *)
 Corollary checked_typed_roundtrip : forall (E : env) (m : msg) (b : list Z),
   env_ok E = true -> wf_msg E m = true -> typed_msg E m = true -> check_msg E m = Ok true ->
-  pack_msg E m = Ok b -> Z.of_nat (length b) <= 2147483647 ->
+  pack_msg E m = Ok b -> Z.of_nat (length b) <= max_input ->
   unpack_top E (m_desc m) b = Ok (wnorm_msg E m).
 Proof.
   intros E m b EO Hwf Hty Hck Hp Hl.
